@@ -333,7 +333,7 @@ func ParseTokenParam(buf []byte, offs int, param *PTokParam,
 					// e.g.: foo;p1 bar => consider bar new param
 					param.state = paramFIN
 					// return separator pos (as expected)
-					if i >= offs+1 {
+					if i >= offs+1 && (buf[i-1] == ' ' || buf[i-1] == '\t') {
 						return i - 1, ErrHdrOk
 					} else {
 						return i, ErrHdrOk
@@ -482,7 +482,7 @@ func ParseTokenParam(buf []byte, offs int, param *PTokParam,
 					// e.g.: foo;p1=5 bar =>  consider bar new param
 					param.state = paramFIN
 					// return separator pos (as expected)
-					if i >= offs+1 {
+					if i >= offs+1 && (buf[i-1] == ' ' || buf[i-1] == '\t') {
 						return i - 1, ErrHdrOk
 					} else {
 						return i, ErrHdrOk
